@@ -80,7 +80,7 @@ func c01CallerFor(callee *ye.Node) string {
 	if ins := c01MapKeys(callee, "on", "workflow_call", "inputs"); len(ins) > 0 {
 		b.WriteString("    with:\n")
 		for i, n := range ins {
-			fmt.Fprintf(&b, "      %s: %s\n", n, []string{"a", "1", "true", "${{ github.sha }}", "${{ github.ref_name }}-${{ github.run_id }}", "x ${{ 1 }} y ${{ true }}"}[i%6])
+			fmt.Fprintf(&b, "      %s: %s\n", n, []string{"${{ github.ref_name }}-${{ github.run_id }}", "a", "x ${{ 1 }} y ${{ true }}", "1", "${{ github.sha }}", "true"}[(i+len(ins))%6])
 		}
 	}
 	if secs := c01MapKeys(callee, "on", "workflow_call", "secrets"); len(secs) > 0 {
